@@ -12,6 +12,8 @@ use std::time::Duration;
 
 pub struct Slot {
     call_tick: AtomicU64,
+    /// extra ticks granted to the calls of this thread (inputs of gigabytes legitimately take long)
+    allowance: AtomicU64,
     case: Mutex<(String, Vec<u32>)>,
 }
 
@@ -20,7 +22,7 @@ static TICK: AtomicU64 = AtomicU64::new(1);
 
 thread_local! {
     static MY: Arc<Slot> = {
-        let s = Arc::new(Slot { call_tick: AtomicU64::new(0), case: Mutex::new((String::new(), Vec::new())) });
+        let s = Arc::new(Slot { call_tick: AtomicU64::new(0), allowance: AtomicU64::new(0), case: Mutex::new((String::new(), Vec::new())) });
         SLOTS.get_or_init(|| Mutex::new(Vec::new())).lock().unwrap().push(s.clone());
         s
     };
@@ -57,6 +59,14 @@ pub fn context(what: &str) {
 
 pub fn leave() {}
 
+/// run `f` with `secs` more seconds before its library calls count as "does not return"
+pub fn with_allowance<T, F: FnOnce() -> T>(secs: u64, f: F) -> T {
+    MY.with(|s| s.allowance.store(secs * 10, Ordering::Relaxed));
+    let r = f();
+    MY.with(|s| s.allowance.store(0, Ordering::Relaxed));
+    r
+}
+
 /// start the monitor; `on_stuck(label, cps, seconds)` is expected not to return
 pub fn start_monitor<F: Fn(&str, &[u32], u64) + Send + 'static>(limit: Duration, on_stuck: F) {
     let limit_ticks = (limit.as_millis() / 100).max(1) as u64;
@@ -69,7 +79,7 @@ pub fn start_monitor<F: Fn(&str, &[u32], u64) + Send + 'static>(limit: Duration,
         let slots: Vec<Arc<Slot>> = SLOTS.get_or_init(|| Mutex::new(Vec::new())).lock().unwrap().clone();
         for s in slots {
             let st = s.call_tick.load(Ordering::Relaxed);
-            if st != 0 && now.saturating_sub(st) > limit_ticks {
+            if st != 0 && now.saturating_sub(st) > limit_ticks + s.allowance.load(Ordering::Relaxed) {
                 let c = s.case.lock().map(|c| c.clone()).unwrap_or_default();
                 on_stuck(&c.0, &c.1, (now - st) / 10);
             }
